@@ -27,6 +27,7 @@ type HarnessError string
 // Violation is one observed breach of a property.
 type Violation struct {
 	Prop string `json:"property"`
+	Tier string `json:"tier,omitempty"` // the tier whose lattice the case indices refer to
 	Sub  string `json:"sub_check"`
 	Kind string `json:"kind"` // wrong-answer | panic | deadlock | race | bound-exceeded | nontermination
 	// Desc is the canonical descriptor: what fails, at the granularity of a
@@ -184,7 +185,7 @@ func (c *Ctx) Violate(sub, kind, desc string, cas []int, detail any) {
 	if len(c.violations) >= 200 {
 		return
 	}
-	c.violations[key] = &Violation{Prop: c.Prop, Sub: sub, Kind: kind, Desc: desc, Case: append([]int(nil), cas...), Detail: detail, Count: 1}
+	c.violations[key] = &Violation{Prop: c.Prop, Tier: c.Tier, Sub: sub, Kind: kind, Desc: desc, Case: append([]int(nil), cas...), Detail: detail, Count: 1}
 	c.order = append(c.order, key)
 }
 
